@@ -92,6 +92,10 @@ class Repo:
                     tree = ast.parse(source, filename=rel)
                 except SyntaxError as err:
                     raise AnalysisError(f"{rel}: does not parse: {err}") from err
+                from .desugar import desugar
+                from .renest import renest
+                desugar(tree)
+                renest(tree, rel)
                 _add_parents(tree)
                 name = rel[:-3].replace(os.sep, ".")
                 if name.endswith(".__init__"):
